@@ -335,6 +335,7 @@ type harness struct {
 	retries int
 	fx      bool                  // the implementation has the proposed repair of calcStatusCode (probed)
 	flat    map[*lib.TLRep]string // representations whose media files are <prefix><nr>.m4s in the asset directory
+	fxLoss  bool                  // CreateLossItvls has the range check of the interval durations (probed)
 	fxSubs  bool                  // generated subtitle tracks are looked up in the reference track (probed)
 	dist    map[string]bool
 	base    map[string]baseResp
@@ -1233,7 +1234,7 @@ func (h *harness) finishTraffic(q *trafficReq) {
 	}
 	if q.toCoq {
 		c.Res.Inputs[q.id] = in
-		h.terms = append(h.terms, fmt.Sprintf("CTraffic %s %s %s %d %d %d %d %d %s", q.id, lib.Zbytes([]byte(in.Pattern)), lib.CoqString(in.SegPart),
+		h.terms = append(h.terms, fmt.Sprintf("CTraffic %s %s %s %s %d %d %d %d %d %s", q.id, lib.Cbool(h.fxLoss), lib.Zbytes([]byte(in.Pattern)), lib.CoqString(in.SegPart),
 			in.NowMS, basePlain.Status, baseStrip.Status, status, dc, lib.CoqString(modelPanic(q.resp.Panic))))
 	}
 }
@@ -1489,7 +1490,7 @@ func (h *harness) baseURLSweep(assets []*lib.TLAsset) {
 				for _, g := range got {
 					q = append(q, lib.CoqString(g))
 				}
-				h.terms = append(h.terms, fmt.Sprintf("CBase %s %s %d [%s]", id, lib.Zbytes([]byte(p)), resp.Status, strings.Join(q, "; ")))
+				h.terms = append(h.terms, fmt.Sprintf("CBase %s %s %s %d [%s]", id, lib.Cbool(h.fxLoss), lib.Zbytes([]byte(p)), resp.Status, strings.Join(q, "; ")))
 			}
 		}
 	}
@@ -1601,7 +1602,7 @@ func (h *harness) mpdShapeSweep(a *lib.TLAsset) {
 						pid = fmt.Sprint(h.id())
 						c.Res.Inputs[pid] = in
 					}
-					h.terms = append(h.terms, fmt.Sprintf("CBase %s %s %d [%s]", pid, lib.Zbytes([]byte(p)), resp.Status, strings.Join(q, "; ")))
+					h.terms = append(h.terms, fmt.Sprintf("CBase %s %s %s %d [%s]", pid, lib.Cbool(h.fxLoss), lib.Zbytes([]byte(p)), resp.Status, strings.Join(q, "; ")))
 				}
 				// a segment behind every BaseURL of this configuration
 				prefix := strings.TrimSuffix(cfg.URLPrefix(), "traffic_"+p+"/")
@@ -1642,6 +1643,19 @@ func (h *harness) lossCase(pattern string, secs []int64, structured []itvl, toCo
 	if structured != nil {
 		c.Count(fmt.Sprintf("loss/structured/len=%d", len(structured)))
 		// round trip and the state function
+		above := false
+		for _, iv := range structured {
+			above = above || iv.dur > math.MaxInt32
+		}
+		if above && o.Err { // an interval of more than 2^31-1 s may be refused
+			c.Count("loss/structured/above-bound-refused")
+			h.dist["loss/refused/"+pattern] = true
+			if toCoq {
+				c.Res.Inputs[id] = in
+				h.terms = append(h.terms, fmt.Sprintf("CLoss %s %s %s %s %s %s %s %s", id, lib.Cbool(h.fxLoss), lib.Zbytes([]byte(pattern)), lib.Cbool(o.Err), pairsCoq(o.Itvls), lib.Zs(o.Cycle), lib.Zlist64(secs), lib.Zlist64(o.States)))
+			}
+			return
+		}
 		ok := !o.Err && len(o.Itvls) == len(structured)
 		for i := 0; ok && i < len(structured); i++ {
 			ok = o.Itvls[i][0] == structured[i].dur && o.Itvls[i][1] == stateNum(structured[i].state)
@@ -1708,7 +1722,7 @@ func (h *harness) lossCase(pattern string, secs []int64, structured []itvl, toCo
 	}
 	if toCoq {
 		c.Res.Inputs[id] = in
-		h.terms = append(h.terms, fmt.Sprintf("CLoss %s %s %s %s %s %s %s", id, lib.Zbytes([]byte(pattern)), lib.Cbool(o.Err), pairsCoq(o.Itvls), lib.Zs(o.Cycle), lib.Zlist64(secs), lib.Zlist64(o.States)))
+		h.terms = append(h.terms, fmt.Sprintf("CLoss %s %s %s %s %s %s %s %s", id, lib.Cbool(h.fxLoss), lib.Zbytes([]byte(pattern)), lib.Cbool(o.Err), pairsCoq(o.Itvls), lib.Zs(o.Cycle), lib.Zlist64(secs), lib.Zlist64(o.States)))
 	}
 }
 
@@ -1733,8 +1747,13 @@ func (h *harness) lossSweep() {
 		var p []itvl
 		for j := 0; j <= rng.Intn(5); j++ {
 			d := int64(1 + rng.Intn(100))
-			if rng.Intn(5) == 0 {
-				d = 1 + rng.Int63n(1<<40)
+			switch rng.Intn(12) {
+			case 0, 1:
+				d = 1 + rng.Int63n(math.MaxInt32) // up to the longest interval the repaired parser takes
+			case 2:
+				d = math.MaxInt32 - rng.Int63n(2)
+			case 3:
+				d = math.MaxInt32 + 1 + rng.Int63n(1<<40) // longer: refused, or taken exactly (never another value)
 			}
 			p = append(p, itvl{d, "udsh"[rng.Intn(4)]})
 		}
@@ -1746,7 +1765,7 @@ func (h *harness) lossSweep() {
 	}
 	// raw strings: what else is accepted or rejected
 	raw := []string{"", "u", "d", "u0", "u00", "u0d1", "u1d", "u1d0", "12", "0", "u10,", "x", "u1x", "u-1", "u+1", "u 1", "U1", "u1.5", "5u3", "007u2", "u1u1",
-		"u18446744073709551616", "u9223372036854775808", "u9223372036854775807", "u99999999999999999999d1", "u1/", "u1\xff", "\x80", "u\x2f1", "u:1", "hh", "s1h", "u1,d1"}
+		"u18446744073709551616", "u9223372036854775808", "u9223372036854775807", "u99999999999999999999d1", "u2147483647", "u2147483648", "u2147483647d2147483647s2147483647", "u4294967296", "u21474836470", "9999999999999999999999u1", "u1/", "u1\xff", "\x80", "u\x2f1", "u:1", "hh", "s1h", "u1,d1"}
 	alphabet := "udshudsh0123456789019,x/:- U"
 	for k := 0; k < 300; k++ {
 		var sb strings.Builder
@@ -1875,6 +1894,11 @@ func run(c *lib.Ctx) error {
 	} else {
 		c.Res.Notes = append(c.Res.Notes, "calcStatusCode under test does not have the cycle-start repair 497da16: model variant false (C14_unrepaired_* theorems); the oracle reports its defects")
 	}
+	// the loss-pattern parser: a duration of 20 digits does not fit an int; refused by the range check
+	if _, err := app.CreateLossItvls("u99999999999999999999d1"); err != nil {
+		h.fxLoss = true
+	}
+	c.Res.Notes = append(c.Res.Notes, fmt.Sprintf("CreateLossItvls refuses durations that do not fit (range check): %v", h.fxLoss))
 	// generated subtitle tracks: segment 40 of testpic_2s is the first of its 8 s cycle, not scheduled by rsq 1
 	probe = ls.GetRaw("/livesim2/timesubsstpp_en/statuscode_[{cycle:8,rsq:1,code:503}]/testpic_2s/timestpp-en/40.m4s?nowMS=100000")
 	h.fxSubs = probe.Panic == "" && probe.Status == 200
